@@ -266,10 +266,40 @@ class Engine:
         elif isinstance(f, FAll):
             # bound variables are fresh constants already: they act as skolems
             self.prove(name, f.body, list(extra_hyps) + [f.guard], meta, list(sk) + list(f.vars))
+        elif isinstance(f, FAny):
+            # goal-side existential: disjunction over the candidate witnesses available in the state
+            # (witness constants of earlier `any(...)` evaluations); sound, possibly incomplete
+            cands = self.witness_candidates(f.vars[0].sort())
+            body = z3.And(f.guard, f.body)
+            alts = [z3.substitute(body, (f.vars[0], c)) for c in cands]
+            self.emit(name, z3.Or(alts) if alts else z3.BoolVal(False), extra_hyps, extra_terms=list(sk), meta=meta)
         else:
             raise Unsupported("formula %r" % (f,))
 
+    def witness_candidates(self, sort):
+        out, seen = [], set()
+        for h in self.st.pc:
+            stack = [h]
+            while stack:
+                x = stack.pop()
+                if x.get_id() in seen:
+                    continue
+                seen.add(x.get_id())
+                if z3.is_app(x):
+                    if x.num_args() == 0 and x.decl().kind() == z3.Z3_OP_UNINTERPRETED \
+                            and x.sort().eq(sort) and ".w!" in x.decl().name():
+                        out.append(x)
+                    stack.extend(x.children())
+        return out
+
     def assume(self, f, name="hyp", guard=None, vars_=()):
+        if isinstance(f, FAny):
+            # hypothesis-side existential: skolemise (bound variables are fresh constants already)
+            if vars_:
+                raise Unsupported("existential under a universal hypothesis")
+            b = z3.And(f.guard, f.body)
+            self.st.pc.append(b if guard is None else z3.Implies(guard, b))
+            return
         if isinstance(f, FG):
             b = f.b if guard is None else z3.Implies(guard, f.b)
             if vars_:
